@@ -4,7 +4,11 @@ package node
 // Context switches happen at every state-store call and board send (vf.Yield in the decorators), bounded pre-emptions.
 
 import (
+	"encoding/json"
+
 	"github.com/lidofinance/dc4bc/client/api/dto"
+	spf "github.com/lidofinance/dc4bc/fsm/state_machines/signature_proposal_fsm"
+	"github.com/lidofinance/dc4bc/fsm/types/responses"
 	"github.com/lidofinance/dc4bc/client/types"
 	"github.com/lidofinance/dc4bc/fsm/fsm"
 	"github.com/lidofinance/dc4bc/fsm/state_machines"
@@ -33,7 +37,16 @@ func VF_C14_Pair() {
 	if r := vf.Param("apiround"); r != "" {
 		apiRound = r
 	}
+	approve := vf.Param("api") == "approve"
 	pend := types.NewOperation(apiRound, []byte("earlier-request"), "state_earlier")
+	if approve {
+		// the pending operation is the invitation to take part in a round; the operator approves it through the API
+		pub, _ := state_machines.VFKeyPair(0)
+		invitation, _ := json.Marshal(responses.SignatureProposalParticipantInvitationsResponse{
+			{ParticipantId: 0, Username: state_machines.VFUser(0), PubKey: pub, Threshold: 2},
+			{ParticipantId: 1, Username: state_machines.VFUser(1), PubKey: []byte("another-participant-key"), Threshold: 2}})
+		pend = types.NewOperation(apiRound, invitation, spf.StateAwaitParticipantsConfirmations)
+	}
 	result := &dto.OperationDTO{ID: pend.ID, Type: string(pend.Type), Payload: pend.Payload, DkgID: apiRound, Event: fsm.Event("event_earlier_result"),
 		ResultMsgs: []storage.Message{{Event: "event_earlier_result", DkgRoundID: apiRound, Data: []byte("answer")}}}
 
@@ -57,6 +70,9 @@ func VF_C14_Pair() {
 		r := *result
 		r.ResultMsgs = append([]storage.Message{}, result.ResultMsgs...)
 		api := func() { _ = e.node.ProcessOperation(&r) }
+		if approve {
+			api = func() { _ = e.node.ApproveParticipation(&dto.OperationIdDTO{OperationID: pend.ID}) }
+		}
 		switch mode {
 		case 0:
 			poller()
